@@ -334,6 +334,17 @@ struct World : WorldBase {
     // the resolution by `kind` in execution context x
     bool resolve_ctx(const std::string &kind, int idx, const std::string &x) {
         if (x == "scope" || x == "local") return drop_by_scope(x == "local");
+        if (x == "assign") {
+            // the promise variable is re-used while it still holds the unresolved target: operator=(promise &&)
+            // must drop the held target first (sequential mode only)
+            if ((k + idx) % 2 == 0) *p = cocls::promise<From>();
+            else {
+                cocls::future<From> f2;
+                *p = f2.get_promise();        // re-armed for another operation ...
+                (*p)(cocls::drop);            // ... which is finished at once (never destroy a pending future)
+            }
+            return true;
+        }
         bool r = false;
         if (x == "handler" && kind == "exc") {
             // the outcome is the exception being handled
@@ -433,6 +444,8 @@ struct Factory {
     cocls::future<From> operator()() const {
         a.check();
         World<From> *pw = static_cast<World<From> *>(g_w);
+        // "fthrow": the start of the operation fails synchronously; the exception is the operation's outcome
+        if (pw->pre == "fthrow") throw TestExc{10 * pw->round + 1};
         if (pw->use_static) return pw->static_future();
         return cocls::future<From>([pw](cocls::promise<From> pr) { pw->arm(std::move(pr)); });
     }
